@@ -64,9 +64,10 @@ PROPS["C06"] = dict(
     units=[("kani", "ops"), ("verus", "vmcore")],
     explanation="Object::is_falsey equals the documented table for every Bool, Integer, Float (incl. -0.0, NaN), Char, Byte value and Null (Kani, real code). "
                 "The VM arms Bang, JumpIfFalse and JumpIfFalseNoPop are verified to use exactly that predicate: Bang replaces v by Bool(falsey(v)); "
-                "JumpIfFalse pops and jumps to the encoded target iff falsey; JumpIfFalseNoPop does the same without popping (so a && b / a || b yield an operand, not a boolean).",
-    not_covered=["Str/Arr/Map emptiness rows of the table (HashMap/String are outside Kani's reach; the is_empty calls are read, not proved)",
-                 "compile_logical_and/or jump emission; filter patterns (pop_filter_frame requires a Bool)"],
+                "JumpIfFalse pops and jumps to the encoded target iff falsey; JumpIfFalseNoPop does the same without popping (so a && b / a || b yield an operand, not a boolean). "
+                "Object::is_falsey itself is verified (Verus, real body) against the whole documented table, the empty string / array / map rows for containers of every size; "
+                "pop_filter_frame's verdict is !falsey(value), so filter patterns follow the same table.",
+    not_covered=["compile_logical_and/or and compile_if/while jump emission (which instruction sequence the compiler produces for && || if while): the bounded stand-in only"],
     assumptions=[],
     trusted=COMMON_TRUST,
 )
